@@ -75,7 +75,11 @@ func init() {
 
 func init() {
 	unit.C02Extra = func(run *harness.Run) ([]harness.Finding, map[string]interface{}, []string) {
-		return rtPart(run, "validate", 32, 1200, map[string]int{"C02 concurrent validations judged": 5000, "C02 validations that started while another one was running": 1000})
+		fs, ev, inc := rtPart(run, "validate", 32, 1200, map[string]int{"C02 concurrent validations judged": 5000, "C02 validations that started while another one was running": 1000})
+		// ... and next to a live worker: certificates of a running network validated through the API of running nodes
+		fs2, ev2, inc2 := rtPart(run, "stress", 16, 600, map[string]int{"C03 committed pairs validated through the API of a running node": 300})
+		ev["rt_stress"] = ev2
+		return append(fs, fs2...), ev, append(inc, inc2...)
 	}
 	registry["C02"] = unit.CheckC02
 }
